@@ -84,4 +84,8 @@ class StringPool:
                 lo, hi = kw.get("min_len", 0), kw.get("max_len", 12)
                 if lo <= len(s) <= hi:
                     return s
+        if "max_len" not in kw and rng.random() < 0.02:
+            # a long string (fast paths for short or long inputs, size classes, 8-bit length fields)
+            n = rng.choice([31, 32, 33, 64, 100, 255, 256, 300])
+            return gen_string(rng, allow_y=allow_y, allow_tilde=allow_tilde, **dict(kw, max_len=n, min_len=n))
         return gen_string(rng, allow_y=allow_y, allow_tilde=allow_tilde, **kw)
